@@ -1,12 +1,16 @@
 #![cfg_attr(feature = "nightly", feature(error_generic_member_access))]
 #![cfg_attr(feature = "nightly", feature(seek_stream_len))]
 
+#![allow(unexpected_cfgs)] // cfg(jubako_verif*): verification hooks, off in normal builds
+
 #[macro_use]
 mod bases;
 mod common;
 pub mod creator;
 pub mod reader;
 pub mod tools;
+#[cfg(jubako_verif)]
+pub mod verif;
 
 #[cfg(feature = "clap")]
 pub mod cmd_utils;
